@@ -235,3 +235,56 @@ def _(c):
     c.hook("before", "self._muted_partitions.remove", [
         ("assert", "partition-unmuted-only-after-the-response-was-handled", "$handled and tp in batches and a0 == tp"),
     ])
+
+
+# ------------------------------------------------------------------ Sender._sender_routine (what may be drained, and when)
+@contract(MOD + ":Sender._sender_routine", ["C01", "C07"])
+def _(c):
+    c.self_("Sender")
+    _txn_tm(c)
+    c.bind("TransactionState", TS_BIND)
+    c.local("tasks", Set(TASK))
+    c.local("waiters", Set(TASK))
+    c.local("txn_task", Opt(TASK))
+    c.local("muted_partitions", Set(TP))
+    c.local("batches", message_accumulator.NODES)
+    c.local("done", Set(TASK))
+    c.owns("self._txn_manager", "self._message_accumulator", "self.client")
+    c.call("self._maybe_wait_for_pid", havoc_all=True, raises=["KafkaError", "CancelledError"], note="suspends until a producer id is known")
+    c.call("txn_manager.make_task_waiter", returns=TASK, post=["fresh(result)", "not result.done()"],
+           modifies=["TransactionManager._task_waiter"], note="TransactionManager.make_task_waiter: a new pending future")
+    c.call("self.client.force_metadata_update", returns=TASK, note="a future for the next metadata refresh")
+    c.call("self._message_accumulator.waiter", returns=TASK, note="the accumulator's 'data available' future")
+    c.call("asyncio.wait", returns=Tup(Set(TASK), Set(TASK)), havoc_all=True, raises=["CancelledError"],
+           post=["forall(TASK, lambda t: implies(t in result[0], t.done()))"],
+           note="asyncio.wait(waiters, FIRST_COMPLETED): suspends; returns (done, pending), every member of done is done")
+    c.call("self._message_accumulator.drain_by_nodes", returns=Tup(message_accumulator.NODES, BOOL),
+           modifies=["MessageAccumulator.*", "MessageBatch.*", "BatchBuilder.*", "TransactionManager._sequence_numbers",
+                     "Future.state", "Future.nres", "Future.exc"],
+           note="MessageAccumulator.drain_by_nodes (under contract, C01: never drains a muted partition, takes queue heads only); "
+                "abstracted here because its preconditions are the accumulator's own object invariant")
+    c.modifies("self._in_flight", "self._muted_partitions", "TransactionManager._task_waiter", "Future.state", "Future.nres", "Future.exc",
+               "MessageAccumulator.*", "MessageBatch.*", "BatchBuilder.*", "TransactionManager._sequence_numbers")
+    c.raises("fatal-or-unexpected", "BaseException")
+    c.loop(0, header="while True", invariants=[])
+    c.loop(1, header="for node_id, node_batches in batches.items()", invariants=[])
+    c.loop(2, header="for tp in node_batches", invariants=[
+        ("partitions-visited-so-far-are-muted", "forall(TP, lambda q: implies(q in $done, q in self._muted_partitions))"),
+        ("node-marked-in-flight", "node_id in self._in_flight"),
+    ])
+    c.loop(3, header="for task in done", invariants=[])
+    c.loop(4, header="for task in tasks", invariants=[])
+    TXN = "self._txn_manager is not None and self._txn_manager.transactional_id is not None"
+    c.hook("before", "self._message_accumulator.drain_by_nodes", [
+        # C07: "never writes to a partition before the coordinator acknowledged adding it to the transaction"
+        ("assert", "partitions-not-yet-acknowledged-by-the-coordinator-are-muted",
+         "implies(%s, forall(TP, lambda q: implies(q in self._txn_manager._pending_txn_partitions, q in kw_muted_partitions)))" % TXN),
+        # C01: "never two batches of one partition in flight"
+        ("assert", "partitions-with-a-request-in-flight-are-muted",
+         "forall(TP, lambda q: implies(q in self._muted_partitions, q in kw_muted_partitions)) and kw_ignore_nodes == self._in_flight"),
+    ])
+    # ... and what is drained is muted, its node marked busy, before this task yields again
+    c.hook("before", "tasks.add#1", [
+        ("assert", "drained-partitions-muted-and-node-busy-before-the-next-suspension",
+         "node_id in self._in_flight and forall(TP, lambda q: implies(q in node_batches, q in self._muted_partitions))"),
+    ])
